@@ -13,7 +13,7 @@ import hmac as _hmac
 
 import vber
 from vber import (
-    T_COUNTER, T_COUNTER64, T_ENDOFMIBVIEW, T_NOSUCHINSTANCE, T_NOSUCHOBJECT,
+    T_COUNTER, T_COUNTER64, T_GAUGE, T_TICKS, T_ENDOFMIBVIEW, T_NOSUCHINSTANCE, T_NOSUCHOBJECT,
     T_NULL, PDU_GET, PDU_GETBULK, PDU_GETNEXT, PDU_REPORT, PDU_RESPONSE,
     PDU_SET,
 )
@@ -195,6 +195,8 @@ class Agent:
         self.salt_counter = 0
         self.honor_reportable = True
         self.trace = []  # free-form flags used as known-finding triggers
+        self.volatile = False      # counters, gauges and time ticks move on with every read (as on a live device)
+        self.reads = 0
 
     # -- database -----------------------------------------------------
     def engine_time(self) -> int:
@@ -203,6 +205,16 @@ class Agent:
     def reboot(self) -> None:
         self.boots += 1
         self.boot_at = self.clock.now
+
+    def read(self, oid):
+        tag, content = self.db[tuple(oid)]
+        if self.volatile and tag in (T_COUNTER, T_GAUGE, T_TICKS, T_COUNTER64):
+            self.reads += 1
+            bits = 64 if tag == T_COUNTER64 else 32
+            v = (int.from_bytes(content, "big") + self.reads) % (1 << bits)
+            n = max(1, (v.bit_length() + 8) // 8)
+            return tag, v.to_bytes(n, "big")
+        return tag, content
 
     def successor(self, oid):
         i = bisect.bisect_right(self.keys, tuple(oid))
@@ -229,7 +241,7 @@ class Agent:
         if tag == PDU_GET:
             for i, (o, _, _) in enumerate(req):
                 if o in self.db:
-                    out.append((o,) + self.db[o])
+                    out.append((o,) + self.read(o))
                 elif version == 0:
                     return 2, i + 1, [(o, T_NULL, b"") for o, _, _ in req]
                 else:
@@ -239,7 +251,7 @@ class Agent:
             for i, (o, _, _) in enumerate(req):
                 n = self.successor(o)
                 if n is not None:
-                    out.append((n,) + self.db[n])
+                    out.append((n,) + self.read(n))
                 elif version == 0:
                     return 2, i + 1, [(o, T_NULL, b"") for o, _, _ in req]
                 else:
@@ -257,7 +269,7 @@ class Agent:
             m = max(0, pdu["f2"])
             for o, _, _ in req[:n]:
                 s = self.successor(o)
-                out.append((s,) + self.db[s] if s is not None else (o,) + EOM)
+                out.append((s,) + self.read(s) if s is not None else (o,) + EOM)
             cur = [o for o, _, _ in req[n:]]
             r = len(cur)
             rows = []
@@ -268,7 +280,7 @@ class Agent:
                     for i, o in enumerate(cur):
                         s = self.successor(o)
                         if s is not None:
-                            row.append((s,) + self.db[s])
+                            row.append((s,) + self.read(s))
                             cur[i] = s
                             alleom = False
                         else:
